@@ -456,36 +456,77 @@ def bincount(I, ctx, x, weights=None, minlength=0):
     return BinSum(ctx, ln, ids, wts, n_in)
 
 
+class MaskEnum:
+    """the true positions of a boolean array, enumerated in increasing order: cnt of them, SEL(j) the j-th one,
+    RNK(p) the number of true positions before p (assumed numpy contract of boolean-mask indexing)"""
+
+    def __init__(self, ctx, mask):
+        n = zn(mask)
+        self.n = n
+        self.cnt = ctx.fresh_int("cnt")
+        self.SEL = z3.Function(ctx.fresh_name("SEL"), z3.IntSort(), z3.IntSort())
+        self.RNK = z3.Function(ctx.fresh_name("RNK"), z3.IntSort(), z3.IntSort())
+        cnt, sel, rnk = self.cnt, self.SEL, self.RNK
+        ctx.assume(z3.And(cnt >= 0, cnt <= n))
+        i = z3.Int("i_mask")
+        allsel = z3.ForAll([i], z3.Implies(z3.And(i >= 0, i < n), B.zbool(mask.elem(i))))
+        ctx.assume((cnt == n) == allsel)
+        j, j2, p = z3.Int(ctx.fresh_name("j_sel")), z3.Int(ctx.fresh_name("j2_sel")), z3.Int(ctx.fresh_name("p_sel"))
+        ctx.assume(z3.ForAll([j], z3.Implies(z3.And(j >= 0, j < cnt),
+                                             z3.And(sel(j) >= 0, sel(j) < n, B.zbool(mask.elem(sel(j))), rnk(sel(j)) == j, z3.Implies(cnt == n, sel(j) == j))),
+                             patterns=[sel(j)]))
+        ctx.assume(z3.ForAll([p], z3.Implies(z3.And(p >= 0, p < n, B.zbool(mask.elem(p))), z3.And(rnk(p) >= 0, rnk(p) < cnt, sel(rnk(p)) == p)),
+                             patterns=[rnk(p)]))
+        ctx.assume(z3.ForAll([j, j2], z3.Implies(z3.And(0 <= j, j < j2, j2 < cnt), sel(j) < sel(j2)), patterns=[z3.MultiPattern(sel(j), sel(j2))]))
+
+
+def mask_enum(ctx, mask):
+    """one enumeration per boolean sequence of a path: masks with the same length and the same element formula share it"""
+    k = z3.Int("k_mask_key")
+    try:
+        key = (smt.simp(zn(mask)).sexpr(), smt.simp(B.zbool(mask.elem(k))).sexpr())
+    except Exception:
+        key = ("object", id(mask), id(mask.elem))
+    cache = ctx.ghost.setdefault("mask_enums", {})
+    if key not in cache:
+        cache[key] = MaskEnum(ctx, mask)
+    return cache[key]
+
+
 def mask_filter(I, ctx, a, mask):
     """a[mask] (assumed numpy contract): the selected elements in order. Length CNT with 0 <= CNT <= n,
     CNT == n iff every element is selected; element j is a[SEL(j)] with mask[SEL(j)] true, SEL(j) = j when all selected."""
-    ctx.assumed_ext.add("boolean-mask indexing a[mask]: selected elements in order; len == len(a) iff all selected")
+    ctx.assumed_ext.add("boolean-mask indexing a[mask]: the elements at the true positions, in increasing order of position; len == len(a) iff all selected")
     n = zn(a)
-    cnt = ctx.fresh_int("cnt")
-    sel = z3.Function(ctx.fresh_name("SEL"), z3.IntSort(), z3.IntSort())
-    ctx.assume(z3.And(cnt >= 0, cnt <= n, B._z(mask.n) == n))
-    i = z3.Int("i_mask")
-    allsel = z3.ForAll([i], z3.Implies(z3.And(i >= 0, i < n), B.zbool(mask.elem(i))))
-    ctx.assume((cnt == n) == allsel)
-    # the same facts for every position (needed when the element function is applied to a bound variable)
-    jq = z3.Int(ctx.fresh_name("j_sel"))
-    ctx.assume(z3.ForAll([jq], z3.Implies(z3.And(jq >= 0, jq < cnt),
-                                          z3.And(sel(jq) >= 0, sel(jq) < n, B.zbool(mask.elem(sel(jq))), z3.Implies(cnt == n, sel(jq) == jq))),
-                         patterns=[sel(jq)]))
+    ctx.assume(B._z(mask.n) == n)
+    en = mask_enum(ctx, mask)
+    cnt, sel = en.cnt, en.SEL
 
     def elem(j):
-        jz = B._z(j)
-        sj = sel(jz)
-        ctx.assume(z3.Implies(z3.And(jz >= 0, jz < cnt), z3.And(sj >= 0, sj < n, B.zbool(mask.elem(sj)), z3.Implies(cnt == n, sj == jz))))
-        return a.elem(smt.simp(sj))
+        return a.elem(smt.simp(sel(B._z(j))))
     r = NArr(cnt, elem, a.dtype, "masked")
     r.mask_all = (lambda idx: z3.Implies(cnt == n, B.zbool(mask.elem(idx))))
     r.masked_from = (a, mask)
+    r.mask_enum = en
     return r
 
 
 def narr_setitem(I, ctx, a, k, v):
     """a[k] = v for an integer (possibly symbolic) index: in place, aliases see it"""
+    if isinstance(k, NArr) and k.dtype == "bool":
+        # a[mask] = v: a scalar everywhere the mask is true, or an array with one value per true position, in order
+        ctx.assumed_ext.add("boolean-mask assignment a[mask] = values: the j-th value goes to the j-th true position; ValueError unless "
+                            "there are as many values as true positions")
+        old = a.elem
+        if isinstance(v, NArr):
+            en = mask_enum(ctx, k)
+            if not ctx.branch(zn(v) == en.cnt):
+                raise I.raise_exc("ValueError")
+            a.elem = (lambda g, old=old, k=k, v=v, en=en: B.ite_val(B.zbool(k.elem(g)), (lambda: v.elem(smt.simp(en.RNK(B._z(g))))), (lambda: old(g))))
+            a.assigned_from, a.assigned_enum = v, en
+        else:
+            a.elem = (lambda g, old=old, k=k, v=v: B.ite_val(B.zbool(k.elem(g)), (lambda: v), (lambda: old(g))))
+        return
     if isinstance(k, NArr):
         raise Unsupported("array-indexed assignment needs a contract")
     i = B.norm_index(I, ctx, k, a.n)
